@@ -305,7 +305,7 @@ fn unpaired_strategy() -> impl Strategy<Value = UnpairedProbe> {
 
 pub fn run(run: &mut Run) {
     run.technique = "bounded exhaustive enumeration of every integer degree of freedom in a dense range x 32 levels x 3 kinds, plus proptest random real-valued dof via unpaired comparisons; oracle = own t / normal CDF (quadrature) evaluated at the critical value implied by the returned interval".into();
-    run.rule = "probe states of n values ±1 (exact sums) for every n in 2..=N (quick 6000, thorough 60000) by append, and by `+` composition for sizes up to 2^22 dense around 100 000; 32 levels (incl. 0.001..0.49) x 3 kinds at every size; real-valued dof in (1, 2e5) from Unpaired::ci with generated sizes and scales; z implied by ci_wilson bounds; each (dof, level, kind) is distinct".into();
+    run.rule = "probe states of n values ±1 (exact sums) for every n in 2..=N (quick 6000, thorough 60000) by append, and by `+` composition for sizes up to 2^22 dense around 100 000 and for counts m 2^32 + r (also 2^24 + r, 2^40 + r, 2^53 + r) with small r; 32 levels (incl. 0.001..0.49) x 3 kinds at every size; real-valued dof in (1, 2e5) from Unpaired::ci with generated sizes and scales; z implied by ci_wilson bounds; each (dof, level, kind) is distinct".into();
     crate::meanref::selftest_into(run);
     let nmax: u64 = run.tier.pick(6000, 60_000);
     run.par((nmax - 1) as usize, |i, obs| {
@@ -323,6 +323,16 @@ pub fn run(run: &mut Run) {
         sizes.push((2f64).powf(e) as u64 + 2);
     }
     sizes.extend([100_003, 131_072, 1 << 20, 1 << 22, (1 << 22) - 1, 99_000, 50_001]);
+    // counts whose low 32 bits (or low 24 / 53 bits) are small: a count narrowed by a cast would land back in t territory
+    for base in [1u64 << 32, 1u64 << 33, 3u64 << 32, 1u64 << 40, 1u64 << 24, 1u64 << 53] {
+        for r in [2u64, 3, 4, 17, 1001, 65_537, 99_999] {
+            sizes.push(base + r);
+        }
+    }
+    let mut g2 = crate::engine::SplitMix(run.seed_for("merged_sizes_wide", 0));
+    for _ in 0..run.tier.pick(40usize, 2000) {
+        sizes.push(((1 + g2.below(255)) << 32) + 2 + g2.below(100_000));
+    }
     let sizes_ref = &sizes;
     run.par(sizes.len(), |i, obs| {
         crate::engine::case_on(obs, "mean_merged", &Probe { n: sizes_ref[i], merged: true }, probe_case);
